@@ -227,7 +227,7 @@ def check_cfg(fx, rep, crate, cfg):
             l = ref_target_local(run, aq) if aq else None
             if l is not None:
                 path = tuple(x for x in items_s.get(l, ('?',)) if x != 'Ok')
-                item_ok = path == ('1', 'Some', '0')
+                item_ok = path in (('1', 'Some'), ('1', 'Some', '0'))
             rep.check(item_ok, 'R10.2', '%s|sent-item-is-yielded-item|%s' % (fk, cfg), C.where(run, b),
                       'the reply handed to the send is the item yielded by the stream select, unchanged (same local, by reference)',
                       'the reply sent to the subscriber is not the item the stream yielded (rebuilt or different value: continues flag / parameters may differ)')
